@@ -55,3 +55,22 @@ Example C16_frame_ok_example :
 Proof.
   repeat constructor; try discriminate; cbn; lia.
 Qed.
+
+(* ---------- the encoder from the source ----------
+   client.cobsEncode as the translator printed it from client/cobs-wrapper.go on this run (Anchors/Generated.v, a
+   syntax tree of MiniGo/Slice.v: make, append, a code byte patched in place, if, ||) evaluates, under
+   MiniGo/Slice.v's semantics, to the model's [encode] -- the function every theorem above is about -- for every
+   frame of bytes (frame_len_ok: fewer than 2^60 bytes).  Proofs: Anchors/TieCobs.v (the printed loop is a fold of one
+   step; on bytes that step is Cobs/EncLoop.v's stepN) and Cobs/EncLoop.v (the fold of stepN is [encode]). *)
+From Coq Require Import ZArith.
+From Verif Require Import MiniGo.Slice Anchors.Generated Anchors.TieCobs.
+Theorem C16_encoder_from_source : forall f : list N, Forall (fun b => (b < 256)%N) f -> frame_len_ok f ->
+  srun go_client_cobsEncode [map Z.of_N f] = Some (map Z.of_N (encode f)).
+Proof. exact go_cobsEncode_is_model. Qed.
+Print Assumptions C16_encoder_from_source.
+
+(* the premises are satisfiable and the printed function runs: a frame with zeros, the empty frame *)
+Example C16_encoder_from_source_example :
+  srun go_client_cobsEncode [[1; 0; 2; 3]%Z] = Some [2; 1; 3; 2; 3; 0]%Z /\
+  srun go_client_cobsEncode [[]] = Some [1; 0]%Z.
+Proof. split; vm_compute; reflexivity. Qed.
